@@ -40,7 +40,7 @@ META = {
                   "per Mazurkiewicz trace beyond), every logged event trace is validated in Coq (vm_compute) by the proved transition system and its results compared "
                   "with the returned list; real thread/process pools and scripted futures with adversarial completion orders for every chunk size; _chunks, evaluate_all "
                   "and experiment() outputs compared with the models; an independent oracle checks the property statement on all of it.",
-    "level_note": "Trusted: Coq kernel + VM; harness (literal printer, shard runner); the simulated mpi4py (harness/props/c12_fakempi.py: per-(src,dst) FIFO mailboxes, "
+    "level_note": "Tie/T12.v also states the chunking laws about the _chunks GENERATED from the source text (tie_c12_generated_*). Trusted: Coq kernel + VM; harness (literal printer, shard runner); the simulated mpi4py (harness/props/c12_fakempi.py: per-(src,dst) FIFO mailboxes, "
                   "first-match receives, buffered sends, one rank thread running at a time) stands in for MPI — a real MPI library, OS scheduling and pickling failures "
                   "are not covered; a purely synchronous (rendezvous) MPI is not modelled: with unbuffered sends in both directions the static branch with more tasks "
                   "than workers can block (master in waitall, worker in send), which is a liveness matter outside the property. Tasks that raise are outside the model "
